@@ -168,8 +168,11 @@ def generate(prop, rng, index, tier):
             ops.append(["PARSE_BAD", rng.randrange(nparsers), d,
                         {"op": rng.choice(["delete", "unbalance-open", "unbalance-close", "quote-open", "garbage-char",
                                            "duplicate"]), "tok": rng.randrange(10000), "tok2": rng.randrange(10000)}])
-        elif r < 0.87:
+        elif r < 0.84:
             ops.append(["LOAD", d])
+        elif r < 0.87:
+            # API: a command object constructed directly (as the test-suite does), validated when it runs
+            ops.append(["DIRECT", rng.choice(["undeclared", "missing", "wrong-kind"]), rng.randint(2, 40), rng.randint(41, 90)])
         else:
             ops.append(["CLI", d])
     return {"engine": ENGINE, "prop": "C11", "docs": docs, "ops": ops}
@@ -393,6 +396,8 @@ def execute(sc):
                     res.violate("C11.tree", "C11.tree wrong-lineno %s %s" % (state, eol),
                                 "parser %d (history %r): %s" % (k, prev[-3:], "; ".join(bad[:3])))
                 hist[k].append("ok")
+            elif op[0] == "DIRECT":
+                _direct(op, log, res, Program, MPilotError)
             elif op[0] in ("LOAD", "CLI"):
                 di = op[1] % len(rendered)
                 doc = sc["docs"][di]
@@ -407,6 +412,54 @@ def execute(sc):
     res.schedule_key = h64(sc["ops"])
     res.nontrivial = len(sc["ops"]) >= 3
     return res
+
+
+def _direct(op, log, res, Program, MPilotError):
+    """A command built directly with Argument objects that carry lines; its parameters are validated when it runs."""
+    from mpilot.arguments import Argument
+    kind, cline, aline = op[1], op[2], op[3]
+    program = Program()
+    cls = program.find_command_class("CvtToBinary")
+    src = program.find_command_class("EEMSRead")("src0", [], program=program, lineno=1)
+    src.is_finished = True
+    import numpy
+    src._result = numpy.ma.array([1.0, 2.0, 3.0])
+    program.commands["src0"] = src
+    args = [Argument("InFieldName", "src0", cline + 1), Argument("Threshold", 2, cline + 2),
+            Argument("Direction", "LowToHigh", cline + 3)]
+    if kind == "undeclared":
+        args.append(Argument("Bogus", 1, aline))
+        want, lines = "NoSuchParameter", {aline}
+    elif kind == "missing":
+        args = args[:2]
+        want, lines = "MissingParameters", {cline}
+    else:
+        args[1] = Argument("Threshold", "abc", aline)
+        want, lines = "ParameterNotValid", {aline}
+    cmd = cls("X", args, program=program, lineno=cline)
+    program.commands["X"] = cmd
+    exc = None
+    try:
+        cmd.run()
+    except SimAbort:
+        raise
+    except Exception as e:  # noqa
+        exc = e
+    log.emit("direct", kind=kind, exc=type(exc).__name__ if exc else None)
+    res.probe("directly constructed command validated at run time: " + kind)
+    if exc is None or not isinstance(exc, MPilotError):
+        res.observe("direct command: %s (C12/C13's business)" % (type(exc).__name__ if exc else "accepted"))
+        return
+    ln = getattr(exc, "lineno", None)
+    if type(exc).__name__ != want:
+        res.observe("direct command rejected with %s" % type(exc).__name__)
+        return
+    if ln is None:
+        res.violate("C11.error", "C11.error no-lineno direct-%s %s" % (kind, want),
+                    "%s from a directly constructed command carries no line (true: %r)" % (want, sorted(lines)))
+    elif ln not in lines:
+        res.violate("C11.error", "C11.error wrong-lineno direct-%s %s" % (kind, want),
+                    "%s from a directly constructed command carries line %r (true: %r)" % (want, ln, sorted(lines)))
 
 
 def _load(sc, route, doc, text, ledger, nodes, info, log, res, Program, MPilotError):
